@@ -168,6 +168,15 @@ func GenFont(t *sim.Tape, maxGlyphs int) *type1.Font {
 		f.Glyphs[name] = GenGlyph(t, frac)
 		names = append(names, name)
 	}
+	if t.Choose(12) == 0 {
+		// names beyond the 127 bytes many PostScript implementations allow,
+		// agreeing in their first 127 bytes
+		stem := strings.Repeat("longglyphname", 10)[:127]
+		for _, suf := range []string{"A", "B", "Ca"}[:2+t.Choose(2)] {
+			f.Glyphs[stem+suf] = GenGlyph(t, frac)
+			names = append(names, stem+suf)
+		}
+	}
 	switch t.Weighted(3, 3, 3) {
 	case 0:
 		f.Encoding = nil
@@ -513,4 +522,31 @@ func Redate(t *sim.Tape, file []byte) []byte {
 	out = append(out, repl...)
 	out = append(out, file[i+j:]...)
 	return out
+}
+
+// AliasFont returns a no-eexec font file without /FontName that registers the
+// same font dictionary under two names (legal PostScript; which name a reader
+// reports must not vary).
+func AliasFont(t *sim.Tape) []byte {
+	f := GenFont(t, 4)
+	file, err := FontFile(f, type1.FormatNoEExec)
+	if err != nil {
+		return nil
+	}
+	i := bytes.Index(file, []byte("\n/FontName "))
+	if i >= 0 {
+		j := bytes.IndexByte(file[i+1:], '\n')
+		file = append(append([]byte{}, file[:i]...), file[i+1+j:]...)
+	}
+	old := []byte("dup /FontName get exch definefont pop")
+	k := bytes.Index(file, old)
+	if k < 0 {
+		return nil
+	}
+	a, b := "Zeta", "Alpha"
+	if t.Bool(1, 2) {
+		a, b = b, a
+	}
+	repl := fmt.Sprintf("dup /%s exch definefont /%s exch definefont pop", a, b)
+	return append(append(append([]byte{}, file[:k]...), repl...), file[k+len(old):]...)
 }
